@@ -50,7 +50,7 @@ fn unit_str(r: std::io::Result<()>) -> String {
     r.map(|_| "Ok".to_string()).unwrap_or_else(|e| io_err(&e))
 }
 
-/// `store <sync|fsm> <kind> <size> <bs> <seed> <node>`: on a store whose backing holds seeded random bytes:
+/// `store <sync|fsm> <kind> <size> <bs> <seed> <node> [short<len>]`: on a store whose backing holds seeded random bytes:
 /// load(node), save(node, seeded pair), load(node) again, sync(); every call through `&` / `&mut` of the store
 pub fn op_store(args: &[&str]) -> String {
     let fl = args[0];
@@ -60,7 +60,12 @@ pub fn op_store(args: &[&str]) -> String {
     let seed: u64 = args[4].parse().unwrap();
     let n = node(args[5].parse().unwrap());
     let tree = BaoTree::new(size, bs);
-    let backing = crate::rng::rand_bytes(seed, tree.outboard_size() as usize);
+    let mut backing = crate::rng::rand_bytes(seed, tree.outboard_size() as usize);
+    // optional 7th argument `short<len>`: the backing holds only the first len bytes (a file that was never
+    // filled to its final length)
+    if let Some(l) = args.get(6).and_then(|a| a.strip_prefix("short")) {
+        backing.truncate(l.parse().unwrap());
+    }
     let l: [u8; 32] = crate::rng::rand_bytes(seed + 1, 32).try_into().unwrap();
     let r: [u8; 32] = crate::rng::rand_bytes(seed + 2, 32).try_into().unwrap();
     let pair: Pair = (l.into(), r.into());
@@ -202,6 +207,25 @@ pub fn op_misc(args: &[&str]) -> String {
                 Ok(p) => format!("Ok({})", node_id(p.node)),
                 Err(_) => "Err".into(),
             }
+        }
+        // Debug of Leaf (length instead of bytes) and of the response plan iterator, EncodedItem::from(EncodeError),
+        // and what the hand-written deserialisers say they expect when given the wrong type
+        "dbg" => {
+            let n = num(1);
+            let leaf = bao_tree::io::Leaf { offset: n, data: bytes::Bytes::from(vec![7u8; (n % 5) as usize]) };
+            let it = bao_tree::iter::ResponseIter::new(BaoTree::new(n, BlockSize::ZERO), bao_tree::ChunkRanges::all());
+            let item: bao_tree::io::mixed::EncodedItem = EncodeError::LeafWrite(ChunkNum(n)).into();
+            let from_ok = matches!(item, bao_tree::io::mixed::EncodedItem::Error(EncodeError::LeafWrite(c)) if c.0 == n);
+            let e1 = serde_json::from_str::<bao_tree::io::Parent>("5").err().map(|e| e.to_string()).unwrap_or_default();
+            let e2 = serde_json::from_str::<EncodeError>("{\"Io\":5}").err().map(|e| e.to_string()).unwrap_or_default();
+            format!(
+                "{} {} {}{}{}",
+                format!("{:?}", leaf).replace(' ', "_"),
+                format!("{:?}", it).replace(' ', "_"),
+                b01(from_ok),
+                b01(e1.contains("expected a parent node")),
+                b01(e2.contains("expected an io::Error string representation"))
+            )
         }
         _ => panic!("bad misc"),
     }
